@@ -30,10 +30,10 @@ C20OK(rec) ==
 C16OK(rec) == (rec.op \in {"salloc", "ualloc"} /\ \E k \in 1..Len(rec.ok) : ~rec.ok[k]) => C05OK(rec)
 VARIABLE i
 Judge(rec) ==
-    /\ (Level # 2 \/ C16OK(rec) \/ PrintT(<<"L2FAIL", "C16", rec.id>>))
-    /\ (Level # 2 \/ C05OK(rec) \/ PrintT(<<"L2FAIL", "C05", rec.id>>))
-    /\ (Level # 2 \/ C20OK(rec) \/ PrintT(<<"L2FAIL", "C20", rec.id>>))
-    /\ (Level # 1 \/ StepOK(rec) \/ PrintT(<<"L1DRIFT", "ptr", rec.id>>))
+    /\ (IF Level # 2 \/ C16OK(rec) THEN TRUE ELSE PrintT(<<"L2FAIL", "C16", rec.id>>))
+    /\ (IF Level # 2 \/ C05OK(rec) THEN TRUE ELSE PrintT(<<"L2FAIL", "C05", rec.id>>))
+    /\ (IF Level # 2 \/ C20OK(rec) THEN TRUE ELSE PrintT(<<"L2FAIL", "C20", rec.id>>))
+    /\ (IF Level # 1 \/ StepOK(rec) THEN TRUE ELSE PrintT(<<"L1DRIFT", "ptr", rec.id>>))
 TInit == i = 1
 TNext == i < Len(Recs) /\ i' = i + 1 /\ Judge(Recs[i + 1])
 TSpec == TInit /\ [][TNext]_i
